@@ -209,8 +209,17 @@ func c12pipe(c *core.Case, env *core.Env) {
 }
 
 func c12pipeCheck(c *core.Case, env *core.Env, res zzsim.Result, v *core.Verdict) {
+	silent := false
+	for _, op := range c.Ops {
+		silent = silent || op.X >= 3
+	}
 	for _, h := range env.History() {
 		switch {
+		case h.Ret == 0 && silent && strings.HasPrefix(h.Kind, "fresh-"):
+			// cause-specific (known finding): the listener exchanges the
+			// descriptors with the peer it has just accepted before it
+			// accepts anybody else
+			v.Violations = append(v.Violations, core.Violation{Class: "C12/pipe-listener/silent-peer-keeps-the-listener-from-accepting", Detail: fmt.Sprintf("a server listening at %s: a peer connected to the socket and never sent its descriptor; %s never returned", c12pipeAddr, h)})
 		case h.Ret == 0:
 			v.Violations = append(v.Violations, core.Violation{Class: "C12/pipe-listener/hang/" + h.Kind, Detail: fmt.Sprintf("a server listening at %s, connections given up during the handshake of the transport: %s never returned", c12pipeAddr, h)})
 		case !h.OK:
